@@ -417,6 +417,29 @@ def rule_both_units(ctx, F):
     ctx.floor("range bounds compared in both units", n, 3)
 
 
+def rule_limit_in_use(ctx, F):
+    """L2: the match limit bounds the capture lists *in use*, whatever was allocated before.  A cursor that ran without a
+    limit keeps its lists; when a lower limit is set afterwards, handing out one of those spare lists must still be
+    refused once `limit` lists are in use — otherwise a re-used cursor finds more matches than a fresh one with the same
+    limit and never reports that the limit was exceeded.  So every successful answer of capture_list_pool_acquire lies
+    behind a test that involves max_capture_list_count."""
+    fn = ctx.need_fn(F, "capture_list_pool_acquire", "L2")
+    if not fn:
+        return
+    oks = [pt for pt, e in fn.points() if e.get("k") == "ret" and e.get("e") is not None and not (strip(e["e"]).get("k") == "int" and strip(e["e"]).get("v") in (65535, 4294967295)) and "CAPTURE_LIST_NONE" not in show(e["e"])]
+    ctx.floor("successful answers of capture_list_pool_acquire", len(oks), 2)
+    alts = [("capture_list_pool_is_empty(self)", False), ("i >= self->max_capture_list_count", False), ("_ >= self->max_capture_list_count", False), ("_ < self->max_capture_list_count", True)]
+    ctx.gate("L2", fn, oks, [("a list is handed out only while fewer than the limit are in use", alts)], accept_desc="handing out a capture list")
+    h = F.fns.get("capture_list_pool_is_empty")
+    if h is not None:
+        rets = [show(e["e"]) for pt, e in h.points() if e.get("k") == "ret" and e.get("e") is not None]
+        if rets and all("max_capture_list_count" in r for r in rets):
+            in_use = all("free_capture_list_count" in r for r in rets)
+            ctx.ok("L2", "capture_list_pool_is_empty:compares-with-the-limit", "capture_list_pool_is_empty is `%s`" % rets[0][:90], nontrivial=False)
+        else:
+            ctx.bad("L2", "capture_list_pool_is_empty:compares-with-the-limit", "capture_list_pool_is_empty no longer compares with max_capture_list_count")
+
+
 def rule_definite(ctx, F):
     """D1: next_capture hands out the captures of an unfinished match only when the match cannot fail any more.
     ts_query_cursor__first_in_progress_capture reports `*is_definite` — in every case in which it is true the state's
@@ -560,6 +583,7 @@ def run(ctx):
         rule_sorted(ctx, F)
         rule_definite(ctx, F)
         rule_both_units(ctx, F)
+        rule_limit_in_use(ctx, F)
     rule_rust(ctx)
     return ctx.finish(
         "Pairing and field-coverage rules over query.c: every discard of a query state under capture-list-pool exhaustion is preceded by "
